@@ -18,12 +18,14 @@ props! {
     "C07" => c07,
     "C08" => c08,
     "C09" => c09,
+    "C10" => c10,
     "C11" => c11,
     "C12" => c12,
     "C13" => c13,
     "C14" => c14,
     "C15" => c15,
     "C16" => c16,
+    "C19" => c19,
     "C20" => c20,
 }
 
